@@ -84,7 +84,8 @@ let compile_of (input : n list) : string =
     let ((ctext, adds), cerr) = compose t in
     let (gtext, gerr) = generate t in
     String.concat "|" [ "done"; show_err e; hex_of_bytes (tree_dump t O); hex_of_bytes ctext; opt_err cerr;
-                        show_entries adds; hex_of_bytes gtext; opt_err gerr; show_adds adds ]
+                        show_entries adds; hex_of_bytes gtext; opt_err gerr; show_adds adds;
+                        (if keys_unique (sm_entries adds) then "unique" else "overlap") ]
 
 (* ---- proxy histories: events separated by ';', fields by ',' ---- *)
 let z_of_int (i : int) : z = if i = 0 then Z0 else if i > 0 then Zpos (pos_of_int i) else Zneg (pos_of_int (-i))
